@@ -461,6 +461,14 @@ def run_to_completion(state: State, external_event: Union[dict, Event]) -> State
                         heads_matching.append(head)
                     else:
                         flow_state = get_flow_state_from_head(state, head)
+                        if (
+                            flow_state.activated > 0
+                            and flow_state.status != FlowStatus.STARTED
+                        ):
+                            # An activated flow that fails before it has started (e.g. its
+                            # first statement waits for a flow that fails at once) is not
+                            # started again: the new instance would fail in the same way
+                            flow_state.new_instance_started = True
                         _abort_flow(state, flow_state, [])
 
                 # Advance front of all matching heads to actionable or match statements
